@@ -206,6 +206,35 @@ func cmdC02(args []string) {
 			}
 		}
 	}
+	// long lines: status, error and integer payloads around and beyond 64 KiB (a line reader with a size limit must not
+	// hand out a prefix as the value), followed by ordinary values
+	if *nlong > 0 {
+		lens, kinds := []int{65535, 65536, 70000}, []string{"str", "err", "int"}
+		if *nlong >= 1000 {
+			lens, kinds = []int{4095, 4096, 4097, 65535, 65536, 65537, 70000}, []string{"str", "err", "int"}
+		}
+		for _, n := range lens {
+			for _, t := range kinds {
+				p := bytes.Repeat([]byte("x"), n)
+				if t == "int" {
+					p = append([]byte("1"), bytes.Repeat([]byte("0"), n-1)...)
+				}
+				st := encVal(Val{T: "arr", E: []Val{{T: t, P: p}, {T: "bulk", P: []byte("after")}}})
+				st = append(st, encVal(Val{T: t, P: p})...)
+				st = append(st, encVal(Val{T: "str", P: []byte("OK")})...)
+				st = append(st, encVal(Val{T: "int", P: []byte("1")})...)
+				parts := [][]int{randPartition(rng, len(st))}
+				if *nlong >= 1000 {
+					parts = append(parts, []int{len(st)})
+				}
+				for _, chunks := range parts {
+					ev := chunkedEvent(st, chunks)
+					ev["src"] = "longline"
+					emit(ev)
+				}
+			}
+		}
+	}
 	must(rec.Close())
 	fmt.Printf("c02: %d events\n", sc)
 }
